@@ -16,6 +16,10 @@ import (
 	"github.com/hashicorp/go-hclog"
 )
 
+// shutdownWriteGrace is how long in-flight responses are given to reach their
+// client once the server has been stopped.
+const shutdownWriteGrace = 1 * time.Second
+
 // Server is an ldap server that you can add a mux (multiplexer) router to and
 // then run it to accept and process requests.
 type Server struct {
@@ -215,7 +219,20 @@ func (s *Server) Run(addr string, opt ...Option) error {
 		conn.disablePanicRecovery = s.disablePanicRecovery
 		localConnID := connID
 		s.connWg.Add(1)
+		connDone := make(chan struct{})
+		// when the server is stopped, wake up the conn's goroutines which are
+		// blocked reading from (or writing to) the client, so a client can't
+		// keep the server from shutting down by holding its conn open.
 		go func() {
+			select {
+			case <-s.shutdownCtx.Done():
+				_ = c.SetReadDeadline(time.Now())
+				_ = c.SetWriteDeadline(time.Now().Add(shutdownWriteGrace))
+			case <-connDone:
+			}
+		}()
+		go func() {
+			defer close(connDone)
 			defer func() {
 				s.logger.Debug("connWg done", "op", op, "conn", localConnID)
 				s.connWg.Done()
